@@ -191,3 +191,31 @@ def openMountedStream (l : MountedLink) (protocolID : Bytes) (env : OpenEnv) : O
 
 end Incoming
 end Bifrost
+
+/-! ### Streams that deliver their final bytes together with the end of the stream -/
+namespace Bifrost
+namespace Incoming
+open Framing
+
+/-- `Controller.HandleIncomingStream` on a stream whose `Read` ends as `lastWithErr` says
+(`Framing.readHeaderE`): the header is read by the same code, everything after it is the same. -/
+def handleIncomingStreamE (maxSize : Nat) (lnk : Link) (r : Reader) (lastWithErr : Bool)
+    (env : Lookup) : Outcome :=
+  match readHeaderE maxSize r lastWithErr with
+  | .error _ =>
+    { dispatched := none, delivered := none, closed := true }
+  | .ok (pid, rest, _) =>
+    let s1 : Stream := { reader := rest, deadlineArmed := false }
+    let mlnk := newMountedLink lnk
+    let mstrm := newMountedStream s1 pid mlnk
+    let dir := newHandleMountedStream pid lnk.localPeer mstrm.getPeerID
+    match env with
+    | .noHandler | .deadline | .resolverErr | .wrongType =>
+      { dispatched := some dir, delivered := none, closed := true }
+    | .handlerErr =>
+      { dispatched := some dir, delivered := some mstrm.facts, closed := true }
+    | .accepts =>
+      { dispatched := some dir, delivered := some mstrm.facts, closed := false }
+
+end Incoming
+end Bifrost
